@@ -237,7 +237,7 @@ theorem suffix_on_sep (b sb : Bytes) (x : Nat) (hx : b.slc[b.index]? = some x) (
   exact h.symm
 
 /-- **`parse_number` on the buffer cut at the count it returns** -/
-theorem parseNumber_truncS (ZI : ZerosMirror c .integer) (ZF : ZerosMirror c .fraction)
+theorem parseNumber_truncS (hE : ExpRadixOK c) (ZI : ZerosMirror c .integer) (ZF : ZerosMirror c .fraction)
     (p : Bool) (b : Bytes) (neg fv : Bool) (r : Number) (count : Nat)
     (hm : c.requiredMantissaDigits = true) (hv : Bytes.Valid b)
     (h : parseNumber c p o b neg fv = .ok (r, count)) :
@@ -294,7 +294,7 @@ theorem parseNumber_truncS (ZI : ZerosMirror c .integer) (ZF : ZerosMirror c .fr
                 Adm c .exponent sb.index ep.byte := by
               intro he
               refine adm_of_stop H.rel .exponent c.exponentRadix ep.byte sb.index
-                (by intro ch hch; rw [hepslc, ← hfpslc] at hch; exact (x4 he).2 ch hch) H.digE u2 ?_
+                (by intro ch hch; rw [hepslc, ← hfpslc] at hch; exact (x4 he).2 ch hch) hE u2 ?_
               intro x hx hs
               rw [suffix_on_sep H ep.byte sb x hx hs hsf]
             have tailE : ∀ x, fp.byte.slc[fp.byte.index]? = some x → c.isSep x = true → sb.index = fp.byte.index := by
